@@ -1096,3 +1096,5 @@ v("d114-extend-empty-untyped", "C03", PB, "            v_dict = {k: res[k] for k
 v("d114-polars-b2r-empty-untyped", "C17", PM, "            return data.select(\n                [pl.col(c) for c in blocks_in.record_keys]\n                + [pl.col(source_col[c]).alias(c) for c in blocks_in.content_keys]\n            )",
   "            return pl.DataFrame({c: [] for c in blocks_in.row_columns})")
 v("d114-project-group-col-untyped", "C03", PB, "                res[g] = self.pd.Series([], dtype=group_col_types[g])", "                res[g] = []")
+
+v("d116-spark-coalesce-isnan-any-type", "C16", SP, "            f\" (CASE WHEN typeof({x}) IN ('double', 'float') THEN NOT isNaN({x}) ELSE TRUE END)\"", "            f\" (NOT isNaN({x}))\"")
